@@ -419,6 +419,17 @@ pub fn enumerate_single_faults(prop: &str, base: &[u8], kind: &str, grid: bool, 
                 cases.push(c);
             }
         }
+        // ... and every member-level fault that keeps the text JSON: repeated, moved, foreign members
+        for (what, doc) in mutate::json_member_variants(base) {
+            for sink in ["json-slice", "json-reader"] {
+                let mut c = mk(sink, &doc, what.clone());
+                c.extra.insert("mutation".into(), "json-members".into());
+                if sink == "json-reader" {
+                    c.read.chunk = Chunk::Fixed(5);
+                }
+                cases.push(c);
+            }
+        }
         for ty in TYPED {
             cases.push(mk(&format!("json-typed:{ty}"), base, "typed".into()));
             for off in (0..n).step_by(7) {
